@@ -30,6 +30,10 @@ class helper(Event):
     pass
 
 
+class watch(Event):
+    pass
+
+
 def G(eid, inst):
     """Key of one instance (copy) of event e<eid> in the log."""
     return eid * 4 + inst
@@ -63,6 +67,8 @@ def _number(spec):
                     a[1] = tok(a[1])
                 if a[0] == 'latewait' and a[4] < 0 and (a[2] < 0 or spec['driver'] == 'tick'):
                     a[4] = 0   # "never fired" without an effective time-out would hang by design
+                if a[0] in ('call', 'firewait', 'waitname') and len(a) > 4 and (spec['driver'] == 'tick' or a[0] == 'waitname'):
+                    a[4] = -1    # the second waiter needs a running loop (its time-out must be able to elapse)
                 if len(spec.get('copies', [0])) > 1:
                     # two instances of every event name are in flight: by-name waits would be ambiguous by design
                     if a[0] == 'waitname':
@@ -86,7 +92,8 @@ def _ev_strategy(depth):
     def script_s(children):
         acts = [st.tuples(st.just('yield'), VAL).map(list)]
         if children is not None:
-            acts += [st.tuples(st.sampled_from(['call', 'call', 'firewait', 'waitname']), children, TMO, st.booleans()).map(list),
+            acts += [st.tuples(st.sampled_from(['call', 'call', 'firewait', 'waitname']), children, TMO, st.booleans(),
+                               st.sampled_from([-1, -1, -1, 0, 1, 2, 3])).map(list),
                      st.tuples(st.just('latewait'), children, TMO, st.booleans(), st.sampled_from([0, 1, 3, -1]), st.booleans()).map(list),
                      st.tuples(st.just('fire'), children).map(list)]
         return st.fixed_dictionaries({
@@ -167,6 +174,14 @@ class C06(Prop):
             def _count(self, event):
                 it[0] += 1
 
+            @H('watch')
+            def _watch(self, ce, timeout):
+                try:
+                    yield self.wait(ce, timeout=timeout)
+                    log.append(('watch-resumed',))
+                except CTimeout:
+                    log.append(('watch-timeout',))
+
             @H('helper')
             def _helper(self, ce, delay):
                 if delay < 0:
@@ -177,6 +192,7 @@ class C06(Prop):
 
         app = App()
         evobj = {}
+        watched = [0]
 
         def snap_value(v):
             val = v.value
@@ -207,6 +223,11 @@ class C06(Prop):
                         log.append(('suspend', site, it[0], timeout))
                         try:
                             ce = evobj[site] = make(cs, inst)
+                            if kind in ('call', 'firewait') and len(a) > 4 and a[4] >= 0:
+                                # a second handler waits for the SAME event object, with its own (short) time-out
+                                self.fire(watch(ce, a[4]))
+                                watched[0] += 1
+                                yield None      # one step, so that the second waiter is installed before ce is dispatched
                             if kind == 'call':
                                 r = yield self.call(ce, **kw)
                             elif kind == 'firewait':
@@ -304,6 +325,8 @@ class C06(Prop):
             # run() registered an Idle child; App's own tables are what is compared
             pass
         final = {eid: snap_value(e.value) for eid, e in evobj.items() if getattr(e, 'value', None) is not None}
+        if watched[0]:
+            log.append(('watched', watched[0]))
         return log, especs, before, after, final, exhausted, escaped, err.getvalue()
 
     # ------------------------------------------------------------------
@@ -430,6 +453,10 @@ class C06(Prop):
             classes.append('depth>=2')
         if len(copies) > 1:
             classes.append('two-copies-in-flight')
+        if any(l[0] == 'watched' for l in log):
+            classes.append('second-waiter-on-same-event')
+        if any(l[0] == 'watch-timeout' for l in log):
+            classes.append('second-waiter-timed-out')
         return Result(True, nontrivial=nontrivial, classes=classes)
 
     @staticmethod
